@@ -121,3 +121,18 @@ package cipher
 //@   requires 0 <= unixnano(now) && unixnano(now) < 4611686018427387904
 //@   check_pre getCachedCiphers
 //@   assert_call selectDecryptStateless: entry != nil && mathint(entry.epoch) == slotOf(old(unixnano(now)))
+
+//@ // Receiver side of the user hint: hashes exactly the candidate name followed by nonce[0:16]
+//@ // (for every legal name length) and compares digest bytes 0..3 with the last four nonce
+//@ // bytes - the mirror image of addUserHintToNonce (C09, C07). That the result is a function of
+//@ // the two byte strings (SHA-256 is deterministic) is what tryState relies on; that clause is
+//@ // assumed, not derived.
+//@ func CheckUserFromHint(user []byte, nonce []byte) (r bool)
+//@   property C09 C07
+//@   mode int
+//@   may_panic
+//@   modifies ghost(lasthash)
+//@   requires len(user) > 0 && len(user) <= 64 && len(nonce) >= 20
+//@   assert_call Sum256: len(arg0) == len(user) + 16 && forall(i, 0, len(user), arg0[i] == user[i]) && forall(j, 0, 16, arg0[len(user) + j] == nonce[j])
+//@   ensures r <==> forall(k, 0, 4, ghost(lasthash)[mathint(k)] == nonce[len(nonce) - 4 + k])
+//@   ensures_assumed r == hintOK(contentOf(user), contentOf(nonce))
